@@ -22,6 +22,7 @@ import (
 	"strconv"
 	"strings"
 	"testing"
+	"time"
 	"unicode/utf8"
 
 	"github.com/couchbase/go-blip"
@@ -1029,4 +1030,203 @@ func vfC10ReproEqualMergeDB(t *testing.T) (what string, err error) {
 		return fmt.Sprintf("database with source S: Put -> cv t1@S; PutExistingCurrentVersion of a concurrent revision x@C resolved as merge -> stored _vv is cv t2@S mv{x@C,t1@S}; PutExistingCurrentVersion of y@B mv{x@C,t1@S} (a peer's merge of the same pair) is accepted and the stored _vv becomes cv y@B mv{x@C,t1@S} pv{}: the database's own source S is lowered from t2 to %s (found=%v), its current version t2@S is lost", lowered, ok), nil
 	}
 	return "", nil
+}
+
+// ---------------------------------------------------------------------------------------------
+// (i-b) locally generated versions through the real write path
+
+// TestVerif_C10_DBVersions: one document per case in a real database; local writes (Put: the version is
+// generated by documentUpdateFunc/updateHLV from the database clock and the stored vector), pushes from
+// peers that have seen the local state (PutExistingCurrentVersion, accepted: our source moves to pv),
+// concurrent pushes resolved by a merging resolver (resolveDocMergeHLV generates the merge version),
+// with generated wall clocks that may stand still or step back and node restarts (SetHLCClockForTest
+// clears the clock's high-water mark). Ground truth: the classic version vector of the document.
+func TestVerif_C10_DBVersions(t *testing.T) {
+	rec := kit.New("C10", "DBVersions")
+	defer rec.Flush()
+	env, err := vfOpen(t, vfDBConfig{})
+	if err != nil {
+		kit.InconclusiveLine("C10", "cannot open database: %v", err)
+		t.Skipf("inconclusive: %v", err)
+	}
+	defer env.Close()
+	ctx, coll := env.Ctx, env.Coll
+	own := env.DBC.EncodedSourceID
+	// all generated versions stay a minute behind the bucket's clock so that the CAS re-stamping of
+	// versions ahead of the server clock (correctVersionAheadOfCAS, a wall-clock wait) never comes into play
+	base0 := (sgbucket.HLCWallClock() - uint64(time.Minute)) &^ sgbucket.HLCLogicalMask
+	now := base0
+	env.DBC.SetHLCClockForTest(func() uint64 { return now })
+	rel := func(v uint64) string {
+		if v >= base0 {
+			return fmt.Sprintf("+%x", v-base0)
+		}
+		return fmt.Sprintf("-%x", base0-v)
+	}
+	merge := NewConflictResolver(func(ctx context.Context, c Conflict) (Body, error) { return Body{"v": "merged"}, nil }, nil)
+	docN := 0
+	rapid.Check(t, func(rt *rapid.T) {
+		docN++
+		docid := fmt.Sprintf("ver%d", docN)
+		var ops []string
+		render := func() string { return strings.Join(ops, "; ") }
+		vv := map[string]uint64{} // ground truth: highest value seen per source
+		last := map[string]uint64{}
+		var maxOwn uint64
+		ownInHistory, lagging, merged := false, false, 0
+		peerSeq := 0
+		fail := func(format string, args ...any) { kit.Violation(rt, "C10", "DBVersions", render(), format, args...) }
+		load := func() *Document {
+			doc, err := coll.GetDocument(ctx, docid, DocUnmarshalAll)
+			if err != nil {
+				fail("document cannot be loaded: %v", err)
+			}
+			if doc.HLV == nil {
+				fail("document has no version vector after a write")
+			}
+			return doc
+		}
+		check := func(doc *Document) {
+			h := doc.HLV
+			for s, want := range vv {
+				got, found := h.GetValue(s)
+				if !found || got != want {
+					fail("stored vector %s: source %s is %s (found=%v), the document has seen %s", vfC10Render(h), s, rel(got), found, rel(want))
+				}
+				if prev, ok := last[s]; ok && got < prev {
+					fail("stored vector %s: source %s lowered from %s to %s", vfC10Render(h), s, rel(prev), rel(got))
+				}
+				last[s] = got
+			}
+			for s := range h.PreviousVersions {
+				if _, dup := h.MergeVersions[s]; dup || s == h.SourceID {
+					fail("stored vector %s lists source %s twice", vfC10Render(h), s)
+				}
+				if _, ok := vv[s]; !ok {
+					fail("stored vector %s records source %s which the document never saw", vfC10Render(h), s)
+				}
+			}
+			vfC10CheckPersist(rt, "DBVersions", h, render)
+			vfC10CheckWire(rt, "DBVersions", h, nil, render)
+		}
+		steps := rapid.IntRange(2, 8).Draw(rt, "steps")
+		kit.Guard(rt, "C10", "DBVersions", render, func() {
+			var doc *Document
+			for s := 0; s < steps; s++ {
+				kind := rapid.IntRange(0, 9).Draw(rt, "op")
+				if doc == nil {
+					kind = 0
+				}
+				switch {
+				case kind < 5: // local write
+					// wall clock: stands still, steps back, or advances; optionally a restart
+					switch rapid.IntRange(0, 3).Draw(rt, "clock") {
+					case 0:
+						now = base0 + uint64(rapid.IntRange(0, 6).Draw(rt, "clockTo"))<<sgbucket.HLCLogicalBits
+					case 1:
+						now += uint64(rapid.IntRange(1, 3).Draw(rt, "clockAdvance")) << sgbucket.HLCLogicalBits
+					}
+					restart := rapid.IntRange(0, 2).Draw(rt, "restart") == 0
+					if restart {
+						env.DBC.SetHLCClockForTest(func() uint64 { return now })
+					}
+					if now <= maxOwn && maxOwn != 0 {
+						lagging = true
+					}
+					body := Body{"v": fmt.Sprintf("local%d", s)}
+					if doc != nil {
+						body[BodyRev] = doc.GetRevTreeID()
+					}
+					_, _, err := coll.Put(ctx, docid, body)
+					ops = append(ops, fmt.Sprintf("put clock=%s restart=%v err=%v", rel(now), restart, err != nil))
+					if err != nil {
+						fail("local write on top of the current revision failed: %v", err)
+					}
+					doc = load()
+					if doc.HLV.SourceID != own {
+						fail("after a local write the current version is %s", vfC10Render(doc.HLV))
+					}
+					ops[len(ops)-1] += " -> " + rel(doc.HLV.Version)
+					if doc.HLV.Version <= maxOwn {
+						fail("versions generated locally do not strictly increase: %s@%s issued after %s@%s (stored vector now %s)", rel(doc.HLV.Version), own, rel(maxOwn), own, vfC10Render(doc.HLV))
+					}
+					if _, inHist := vv[own]; inHist && len(vv) > 1 {
+						ownInHistory = true
+					}
+					maxOwn = doc.HLV.Version
+					vv[own] = maxOwn
+					check(doc)
+				default: // a peer pushes
+					peer := rapid.SampledFrom([]string{"P1", "P2"}).Draw(rt, "peer")
+					var top uint64
+					for _, v := range vv {
+						top = max(top, v)
+					}
+					pv := top + uint64(rapid.IntRange(1, 300).Draw(rt, "peerAhead"))
+					peerSeq++
+					var incoming *HybridLogicalVector
+					concurrent := kind >= 8
+					if concurrent {
+						// the peer has seen an older state only (here: just its own previous versions)
+						incoming = &HybridLogicalVector{SourceID: peer, Version: pv}
+					} else {
+						incoming = doc.HLV.Copy()
+						if err := incoming.AddVersion(Version{SourceID: peer, Value: pv}); err != nil {
+							fail("harness: %v", err)
+						}
+					}
+					newDoc := CreateTestDocument(docid, "", Body{"v": fmt.Sprintf("%s-%d", peer, s)}, false, 0)
+					opts := PutDocOptions{NewDoc: newDoc, NewDocHLV: incoming.Copy()}
+					if concurrent {
+						newDoc.RevID = fmt.Sprintf("1-%s%d", strings.ToLower(peer), peerSeq)
+						newDoc.HLV = incoming.Copy()
+						opts.RevTreeHistory = []string{newDoc.RevID}
+						opts.ConflictResolver = merge
+						opts.ISGRWrite = true
+						now += uint64(rapid.IntRange(0, 1).Draw(rt, "mergeClockAdvance")) << sgbucket.HLCLogicalBits
+					}
+					_, _, _, err := coll.PutExistingCurrentVersion(ctx, opts)
+					ops = append(ops, fmt.Sprintf("push %s@%s concurrent=%v err=%v", rel(pv), peer, concurrent, err != nil))
+					if err != nil {
+						if concurrent {
+							// the merging write needs a consistent rev-tree alignment, which is C04/C06 territory:
+							// a refused merge is skipped, not judged
+							rec.Class("merge-write-refused", 1)
+							ops[len(ops)-1] += fmt.Sprintf(" (%v)", err)
+							continue
+						}
+						fail("a push from a peer that has seen the local current version was refused: %v", err)
+					}
+					doc = load()
+					vv[peer] = pv
+					switch {
+					case doc.HLV.SourceID == peer && doc.HLV.Version == pv:
+						ops[len(ops)-1] += " accepted"
+					case doc.HLV.SourceID == own && doc.HLV.Version > maxOwn:
+						merged++
+						ops[len(ops)-1] += " merged -> " + rel(doc.HLV.Version)
+						maxOwn = doc.HLV.Version
+						vv[own] = maxOwn
+					case doc.HLV.SourceID == own:
+						fail("merge generated %s@%s which is not above the previously generated %s@%s (stored vector %s)", rel(doc.HLV.Version), own, rel(maxOwn), own, vfC10Render(doc.HLV))
+					default:
+						fail("after the push the stored vector is %s", vfC10Render(doc.HLV))
+					}
+					check(doc)
+				}
+			}
+		})
+		classes := []string{}
+		if ownInHistory {
+			classes = append(classes, "local-write-with-own-source-in-history")
+		}
+		if lagging {
+			classes = append(classes, "clock-not-ahead-of-last-own-version")
+		}
+		if merged > 0 {
+			classes = append(classes, "merge-generated-version")
+		}
+		// N (write path): a local write whose own source sits in pv/mv while the wall clock is not ahead of it
+		rec.Case(render(), ownInHistory && lagging, classes...)
+	})
 }
